@@ -1,4 +1,4 @@
-"""C26 — idle release and resume never lose an event or double-run a workflow (in-process stack)."""
+"""C26 — idle release and resume never lose an event or double-run a workflow (in-process stack; DBOS lifecycle lock on two replicas)."""
 from __future__ import annotations
 
 import asyncio
@@ -19,13 +19,26 @@ RULE_TEXT = ("In-process server stack (SQLite or memory store), idle_timeout in 
              "instant). Oracle: every send whose call returned is processed by the run by quiescence (unless the run ended first); "
              "at every release (control loop aborted without a terminal event) the run has no executing body, unprocessed step "
              "result, unprocessed sent event or pending delayed retry; the runner registry never shows two live control loops for "
-             "one run; no step body keeps executing after its control loop exited. DBOS lifecycle-lock half: not exercised (dbos "
-             "not importable). Non-trivial: >=1 send reached a released run or raced a release at the same instant; distinct = "
-             "abstract trace shape.")
-COMPONENTS = {"real": ["IdleReleaseDecorator + KeyedLock reload lock, IdleReleaseExternalRunAdapter.send_event, PersistenceDecorator, server stack, engine"],
-              "stub": ["llama_index_instrumentation"], "sim": ["loop, clocks, runner registry, senders"]}
-ASSUMPTIONS = ["claim limited to the in-process stack; the DBOS lifecycle lock is not exercised"]
-EXPECTED_PROBES = ["store-latency-arm", "send-to-released-run", "send-at-release-instant", "two-senders-same-instant", "released", "release-while-working"]
+             "one run; no step body keeps executing after its control loop exited. DBOS half (a quarter of the runs, on the emulated "
+             "dbos package): TWO replicas (own DBOS instance, runtime, service, lifecycle-lock object) on one database; the lifecycle "
+             "row is created by the harness; lifecycle calls take 0/1/4 ms round trips per run and (stall arm) one chosen call is held "
+             "up 1/130/200 s on its request or response side (CRASH_TIMEOUT is 120 s); 1-3 senders through either replica around the "
+             "release instant and around the crash timeout, then late answers and a final Fin. Oracle there: every event sent is "
+             "processed (tick reduced, folded into a resume, or consumed by a wait) before the Fin-made end, the system becomes quiet "
+             "within 3000 s of the last send; at every TickIdleRelease the run has no executing body, unprocessed result or message "
+             "in its DBOS mailbox; ownership grants (try_begin_resume -> released) alternate with begun releases (at most one resumer "
+             "per release cycle); never two live control loops. Not exercised: a replica crash in the middle of a release (DBOS "
+             "recovery of the releasing executor), the Postgres lock class itself. Non-trivial: >=1 send reached a released run or "
+             "raced a release at the same instant or polled a 'releasing' row; distinct = abstract trace shape.")
+COMPONENTS = {"real": ["IdleReleaseDecorator + KeyedLock reload lock, IdleReleaseExternalRunAdapter.send_event, PersistenceDecorator, server stack, engine",
+                       "DBOS half: DBOSIdleReleaseDecorator (deferred release, send_event poll loop, _do_resume), SqliteRunLifecycleLock, DBOSRuntime adapters, TickPersistenceDecorator, ServerRuntimeDecorator, _WorkflowService, SqliteWorkflowStore (two replicas)"],
+              "stub": ["llama_index_instrumentation", "dbos (in-process emulator on the same SQLite file, /verif/stubs/dbos)", "sqlalchemy, asyncpg (names only)"],
+              "sim": ["loop, clocks, runner registry, senders, lifecycle latency/stall proxy"]}
+ASSUMPTIONS = ["DBOS half runs on the emulated dbos package (contract in stubs/dbos/__init__.py) and on SqliteRunLifecycleLock behind a latency proxy standing in for a networked lock; PostgresRunLifecycleLock is not run",
+               "the lifecycle row is created by the harness (the repository never calls RunLifecycleLock.create: known finding C36-dbos-never-released)",
+               "a replica crash during a release is not simulated on the DBOS half"]
+EXPECTED_PROBES = ["store-latency-arm", "send-to-released-run", "send-at-release-instant", "two-senders-same-instant", "released", "release-while-working",
+                   "lifecycle-latency-arm", "sender-polled-while-releasing", "sends-through-both-replicas", "resumed"]
 LEVEL_TEXT = "Seeded exploration of sender instants around release/reload; safety rules at every runner start/exit, liveness (event processed) at quiescence."
 LEVEL_NOTE = "Trusted: simulator loop/clocks, runner registry (subclass of the private _ControlLoopRunner, behaviour unchanged)."
 
@@ -129,6 +142,7 @@ def check(world, spec, outcome) -> None:
     aborted_pending = 0
     put_seq: dict = {}
     last_idle_pub = None
+    last_idle_t = None
     for seq, t, kind, f in recs:
         if kind == "send":
             sends[f["uid"]] = (seq, t)
@@ -155,6 +169,7 @@ def check(world, spec, outcome) -> None:
         elif kind == "publish":
             if f["ev"] == "WorkflowIdleEvent":
                 last_idle_pub = seq
+                last_idle_t = t
             if f["ev"] in ("StopEvent", "WorkflowFailedEvent", "WorkflowCancelledEvent", "WorkflowTimedOutEvent") and ended_at is None:
                 ended_at = seq
             elif f["ev"] == "WorkflowIdleEvent" and any(u in in_mailbox and u not in processed for u in sends):
@@ -185,8 +200,12 @@ def check(world, spec, outcome) -> None:
                     # root cause attribute: the idle announcement this release rests on (the last one before it; a send in
                     # between would have cleared idle_since) was made while an external send was between its call and its
                     # arrival in the mailbox, i.e. inside IdleReleaseExternalRunAdapter.send_event's clear-then-deliver window
+                    # (on a store whose calls suspend, the marker write itself takes a few round trips after the announcement: a send
+                    # that starts inside them is in the same window, as in C36)
+                    win = (16.0 / 1024) if world.cfg.get("store_latency") else 0.0
                     in_flight = last_idle_pub is not None and any(
-                        sseq < last_idle_pub and (put_seq.get(u) is None or put_seq[u] > last_idle_pub) for u, (sseq, _) in sends.items())
+                        (sseq < last_idle_pub and (put_seq.get(u) is None or put_seq[u] > last_idle_pub)) or
+                        (win and last_idle_t is not None and 0 <= st_ - last_idle_t <= win) for u, (sseq, st_) in sends.items())
                     if in_flight:
                         world.probe("idle-marked-while-send-in-flight")
                     world.violate("C26.released-with-work", f"run released at t={t} while it had work: {work}", seq,
@@ -210,5 +229,326 @@ def check(world, spec, outcome) -> None:
     world._nt = bool(world.probes.get("send-to-released-run") or world.probes.get("send-at-release-instant"))
 
 
+# ---------------------------------------------------------------------------------------------------------------------------
+# DBOS half: DBOSIdleReleaseDecorator + RunLifecycleLock (SQLite) on TWO replicas (two emulated DBOS processes with their own
+# executor ids, runtimes, services and lifecycle-lock objects) sharing one database, on the EMULATED dbos package (DESIGN 9.6).
+# The lifecycle row is created by the harness right after the start (the repository has no caller of RunLifecycleLock.create:
+# known finding C36-dbos-never-released); everything after that is the repository's code.
+
+CFG_DBOS = {"driver": "finish", "quiesce_gap": 500.0, "grid": [0, 1, 1, 2], "p_wait": 100, "allow_send_event": False, "retry_delays": [0],
+            "max_steps": 600_000}
+SETTLE = 3000.0   # virtual seconds the system gets to become quiet once nothing more is sent (polling loops never quiesce by themselves)
+
+
+class _SlowLifecycle:
+    """the replica's RunLifecycleLock behind a network: every call takes time before it reaches the database and before its answer is
+    back, and (stall arm) one chosen call is held up for longer than the crash timeout.  The calls themselves are the real ones."""
+
+    def __init__(self, real, world, replica: str, lat: tuple[float, float], stall: dict | None) -> None:
+        self._real, self._w, self._rep, self._lat, self._stall = real, world, replica, lat, stall
+        self._n: dict[str, int] = {}
+
+    async def _call(self, op: str, run_id: str, *a, **k):
+        w = self._w
+        n = self._n[op] = self._n.get(op, 0) + 1
+        pre, post = self._lat
+        st = self._stall
+        if st and st["op"] == op and st["replica"] == self._rep and st["n"] == n:
+            w.fault("lifecycle-call-stalled")
+            w.trace.log("lc-stall", op=op, replica=self._rep, side=st["side"], secs=st["secs"])
+            if st["side"] == "request":
+                pre += st["secs"]
+            else:
+                post += st["secs"]
+        w.trace.log("lc-call", op=op, replica=self._rep)
+        if pre:
+            await asyncio.sleep(pre)
+        r = await getattr(self._real, op)(run_id, *a, **k)
+        w.trace.log("lc", op=op, replica=self._rep, result=getattr(r, "value", r))
+        if post:
+            await asyncio.sleep(post)
+        return r
+
+    async def create(self, run_id):
+        return await self._call("create", run_id)
+
+    async def begin_release(self, run_id):
+        return await self._call("begin_release", run_id)
+
+    async def complete_release(self, run_id):
+        return await self._call("complete_release", run_id)
+
+    async def try_begin_resume(self, run_id, crash_timeout_seconds=None):
+        return await self._call("try_begin_resume", run_id, crash_timeout_seconds=crash_timeout_seconds)
+
+
+async def _settle(world, limit: float = SETTLE) -> bool:
+    """wait for quiescence, but at most `limit` virtual seconds; False if the system was still busy (polling) then"""
+    q = world.loop.quiesce()
+    done, _ = await asyncio.wait([q], timeout=limit)
+    return bool(done)
+
+
+def _lc_state(world):
+    import sqlite3
+    conn = sqlite3.connect(world.tmp.db())
+    try:
+        lc = conn.execute("SELECT state FROM run_lifecycle").fetchall()
+        h = conn.execute("SELECT status FROM handlers WHERE handler_id='h1'").fetchone()
+    except sqlite3.Error:
+        return None, None
+    finally:
+        conn.close()
+    return (lc[0][0] if lc else None), (h[0] if h else None)
+
+
+async def scenario_dbos(world, spec):
+    tape = world.tape
+    it = float(tape.choice([2, 4], "idle_timeout"))
+    world.cfg["idle_timeout"] = it
+    world._it = it
+    lat_k = tape.choice([0, 0, 1, 4], "lc.latency")
+    lat = (lat_k / 1024, lat_k / 1024)
+    if lat_k:
+        world.probe("lifecycle-latency-arm")
+    stall = None
+    if tape.chance(40, 100, "lc.stall?"):
+        stall = {"op": tape.choice(["complete_release", "complete_release", "complete_release", "begin_release", "try_begin_resume"], "lc.stall.op"),
+                 "replica": tape.choice(["A", "A", "A", "B"], "lc.stall.rep"), "n": tape.choice([1, 1, 2], "lc.stall.n"),
+                 "side": tape.choice(["request", "request", "response"], "lc.stall.side"), "secs": float(tape.choice([1, 130, 200], "lc.stall.secs"))}
+    reps = {}
+    for name, ex in (("A", "exec-1"), ("B", "exec-2")):
+        inc = world.new_incarnation(ex, server_chain=True)
+        inc.name = name
+        reps[name] = inc
+    wfs = {n: inc.add_workflow("wf", spec) for n, inc in reps.items()}
+    for inc in reps.values():
+        await inc.start()
+        real = await inc.call(inc.chain._get_lifecycle())
+        inc.chain._lifecycle_lock_instance = _SlowLifecycle(real, world, inc.name, lat, stall)
+    a = reps["A"]
+    hd = await a.call(a.service.start_workflow(wfs["A"], "h1", start_event=EV.Start0(uid=world.uid())))
+    rid = world._run = hd.run_id
+    await a.call(a.chain._lifecycle_lock_instance._real.create(rid))
+    answered: set = set()
+
+    async def send_via(rep: str, ev, label: str) -> None:
+        inc = reps[rep]
+        live = bool(world.live_runners.get(rid))
+        if not live:
+            world.probe("send-to-released-run")
+        world.probe(f"send-via-{rep}")
+        world.trace.log("send", uid=ev.uid, ev=type(ev).__name__, key=getattr(ev, "key", None), label=label, replica=rep, live=live)
+        world.fault("external-send")
+        try:
+            await inc.call(inc.service.send_event("h1", ev))
+            world.trace.log("send-returned", uid=ev.uid)
+        except BaseException as e:  # noqa: BLE001
+            world.trace.log("send-rejected", uid=ev.uid, exc=type(e).__name__, msg=str(e)[:100])
+            if isinstance(e, asyncio.CancelledError):
+                raise
+
+    async def sender(i: int) -> None:
+        for j in range(tape.rng_int(1, 3, f"s{i}.n")):
+            d = tape.choice([0, 1, it - 1, it, it, it + 1, 2 * it, it + 125], f"s{i}.delay")
+            if d:
+                await asyncio.sleep(d)
+            _, hs = _lc_state(world)
+            if hs != "running":
+                return
+            rep = tape.choice(["A", "B", "B"], f"s{i}.rep")
+            pend = [c for c in world.wait_calls if c["key"] not in answered]
+            if pend and tape.draw(3, f"s{i}.kind") <= 1:
+                answered.add(pend[0]["key"])
+                ev = world.mk("Resp0", -1, "ext", key=pend[0]["key"])
+            else:
+                ev = world.mk("X0", -1, "ext")
+            await send_via(rep, ev, f"sender{i}")
+    tasks = [asyncio.ensure_future(sender(i)) for i in range(tape.rng_int(1, 3, "senders"))]
+    await asyncio.gather(*tasks, return_exceptions=True)
+    stuck = None
+    for _ in range(6):
+        if not await _settle(world):
+            stuck = "answers"
+            break
+        pend = [c for c in world.wait_calls if c["key"] not in answered]
+        _, hs = _lc_state(world)
+        if not pend or hs != "running":
+            break
+        answered.add(pend[0]["key"])
+        await send_via(tape.choice(["A", "B"], "late.rep"), world.mk("Resp0", -1, "ext", key=pend[0]["key"]), "late-response")
+    if stuck is None:
+        if await _settle(world):
+            world.trace.log("quiescent", phase="pre-fin")
+            fin = EV.Fin(uid=world.uid())
+            t = asyncio.ensure_future(send_via(tape.choice(["A", "B"], "fin.rep"), fin, "fin"))
+            if not await _settle(world):
+                stuck = "fin"
+            if not t.done():
+                t.cancel()
+        else:
+            stuck = "pre-fin"
+    lc, hs = _lc_state(world)
+    world.trace.log("quiescent", phase="end", stuck=stuck, lifecycle=lc, handler=hs, live=len(world.live_runners.get(rid) or []))
+    return {"stuck": stuck, "lifecycle": lc, "handler": hs, "stall": stall, "lat": lat_k}
+
+
+def check_dbos(world, spec, outcome) -> None:
+    if not outcome:
+        world._nt = False
+        return
+    recs = world.trace.recs
+    sends: dict = {}
+    returned: set = set()
+    processed: set = set()
+    open_inv: dict = {}
+    unacked: dict = {}
+    in_mailbox: set = set()
+    send_ctx: dict = {}
+    activity_seqs: list = []
+    lcs: list = []
+    sent_at: dict = {}
+    wf_state, release_sent, resume_in_progress, release_call_seq = "live", False, False, None
+    live = 0
+    n_rel = 0
+    grants_since_release = 0
+    begun = False
+    ended_at = None
+    end_kind = None
+    stalled = outcome.get("stall")
+    stall_attr = f"{stalled['op']}/{stalled['side']}/{'long' if stalled['secs'] > 120 else 'short'}" if stalled and any(k == "lc-stall" for _, _, k, _ in recs) else None
+    attrs = {"backend": "dbos", "lifecycle_stall": stall_attr, "lifecycle_latency": bool(outcome.get("lat"))}
+    for seq, t, kind, f in recs:
+        if kind == "lc":
+            lcs.append((seq, f["op"], f["replica"], f["result"]))
+        if kind == "send":
+            sends[f["uid"]] = (seq, t, f)
+        elif kind == "send-returned":
+            returned.add(f["uid"])
+        elif kind == "dbos-send" and f.get("uid") is not None:
+            # the run's mailbox on this stack is the DBOS notifications table (the service's send returns before that: it only
+            # starts a task, which may first have to wait out a release or resume the run)
+            in_mailbox.add(f["uid"])
+            activity_seqs.append(seq)
+            sent_at[f["uid"]] = seq
+            # root-cause attribute of a loss: what the destination workflow was when the message was inserted
+            if resume_in_progress:
+                send_ctx[f["uid"]] = "to-old-workflow-during-resume"
+            elif wf_state == "live":
+                send_ctx[f["uid"]] = "behind-idle-release" if release_sent else "to-live-workflow"
+            else:
+                send_ctx[f["uid"]] = "to-ended-workflow"
+        elif kind == "dbos-send" and f.get("msg") == "TickIdleRelease":
+            release_sent = True
+        elif kind == "dbos-wf-start":
+            wf_state, release_sent = "live", False
+        elif kind == "dbos-wf-end":
+            wf_state = "ended"
+        elif kind == "dbos-wf-deleted":
+            # the old execution's mailbox is purged with it: what was in it is lost (reported below), not queued work of the next run
+            in_mailbox = {u for u in in_mailbox if u in processed}
+        elif kind == "lc-call" and f["op"] == "begin_release":
+            release_call_seq = seq
+        elif kind == "reload-error":
+            resume_in_progress = False
+        elif kind == "tick":
+            if f["tick"] == "add_event":
+                processed.add(f["uid"])
+                activity_seqs.append(seq)
+            elif f["tick"] == "step_result":
+                unacked.pop((f["step"], str(f["uid"])), None)
+            elif f["tick"] == "idle_release" and ended_at is None:
+                n_rel += 1
+                world.probe("released")
+                work = []
+                if open_inv:
+                    work.append("executing:" + ",".join(sorted(set(open_inv.values()))))
+                if unacked:
+                    work.append("unprocessed-step-result")
+                queued = [u for u in sends if u in in_mailbox and u not in processed]
+                if queued:
+                    work.append("unprocessed-sent-event")
+                if work:
+                    world.probe("release-while-working")
+                    # root cause attribute: an event reached the run (or its mailbox) after the release timer had entered
+                    # begin_release: the timer can no longer be cancelled there and the lifecycle row knows nothing of activity
+                    raced = release_call_seq is not None and any(q > release_call_seq for q in activity_seqs)
+                    if raced:
+                        world.probe("event-inside-begin-release-round-trip")
+                    world.violate("C26.released-with-work", f"DBOS stack: run released at t={t} while it had work: {work}", seq, work=work[0].split(":")[0],
+                                  activity_during_release_call=raced, **attrs)
+        elif kind == "wait-result":
+            processed.add(f["got"])
+        elif kind == "enter":
+            if not isinstance(f["uid"], list):
+                processed.add(f["uid"])
+            open_inv[f["inv"]] = f["step"]
+            unacked[(f["step"], str(f["uid"]))] = seq
+        elif kind == "exit":
+            open_inv.pop(f["inv"], None)
+            if f["exit"] == "cancelled":
+                unacked.pop((f["step"], str(f["uid"])), None)
+        elif kind == "publish":
+            if f["ev"] in ("StopEvent", "WorkflowFailedEvent", "WorkflowCancelledEvent", "WorkflowTimedOutEvent") and ended_at is None:
+                ended_at = seq
+                end_kind = f["ev"]
+        elif kind == "runner-start":
+            live += 1
+            if live >= 2:
+                world.violate("C26.two-loops", f"DBOS stack: {live} live control loops for run {f['run']} (runner #{f['runner']} started while another is live)", seq, **attrs)
+        elif kind == "runner-exit":
+            live -= 1
+        elif kind == "dbos-resume":
+            world.probe("resumed")
+        elif kind == "dbos-resumed":
+            resume_in_progress = False
+            if f.get("uid") is not None:
+                # the event that triggered the resume was reduced into the rebuilt state (and appended to the tick log) by _do_resume
+                processed.add(f["uid"])
+        elif kind == "lc" and f["op"] == "begin_release" and f["result"] is True:
+            grants_since_release = 0
+            begun = True
+        elif kind == "lc" and f["op"] == "try_begin_resume" and f["result"] == "released":
+            # an ownership grant: the caller now resumes the run.  One grant per release cycle (a crash-timeout takeover of a stale
+            # 'releasing' row is a grant like any other)
+            grants_since_release += 1
+            resume_in_progress = True
+            if not begun:
+                world.violate("C26.double-owner", f"DBOS stack: a resumer was granted ownership of run {world._run} at t={t} although no release had begun", seq, how="grant-without-release", **attrs)
+            elif grants_since_release >= 2:
+                world.violate("C26.double-owner", f"DBOS stack: {grants_since_release} resumers were granted ownership of run {world._run} within one release cycle (second at t={t})", seq, how="two-grants", **attrs)
+        elif kind == "lc" and f["op"] == "try_begin_resume" and f["result"] == "releasing":
+            world.probe("sender-polled-while-releasing")
+    rerr = sorted({f2["exc"] + ": " + f2["msg"] for _, _, k2, f2 in recs if k2 == "reload-error"})
+    for u, (sseq, st, f) in sends.items():
+        # the run only ends by the Fin the scenario sends last, or by failing: everything sent before a Fin-made end is owed
+        if u in processed or (ended_at is not None and end_kind != "StopEvent" and sseq < ended_at):
+            continue
+        # root-cause attribute: the sender was told 'active' (try_begin_resume -> None) before a release began, and inserted its
+        # message after that release had begun: nothing fences the verdict against the release (or the resume) that follows it
+        d = sent_at.get(u)
+        v = next((q for q, op, rep, res in lcs if q > sseq and op == "try_begin_resume" and rep == f["replica"] and res is None), None)
+        stale = bool(d is not None and v is not None and v < d and any(v < q < d and op == "begin_release" and res is True for q, op, rep, res in lcs))
+        if u in returned or outcome.get("stuck"):
+            world.violate("C26.event-lost", f"DBOS stack: event uid={u} ({f['ev']}, via replica {f['replica']}) sent at t={st} was never processed by the run "
+                          f"({'send returned' if u in returned else 'send never returned'}; releases: {n_rel}; reload errors: {rerr}; end state: {outcome})", sseq,
+                          send_returned=u in returned, reload_error=rerr[0] if rerr else None, end_lifecycle=outcome.get("lifecycle"),
+                          lost_how=send_ctx.get(u, "never-reached-the-mailbox"), stale_active_verdict=stale, **attrs)
+    if outcome.get("stuck") and not world.violations:
+        world.violate("C26.event-lost", f"DBOS stack: the system never became quiet within {SETTLE} s of the last send (phase {outcome['stuck']}); end state: {outcome}",
+                      how="never-quiet", end_lifecycle=outcome.get("lifecycle"), **attrs)
+    if len({f["replica"] for _, _, f in sends.values()}) > 1:
+        world.probe("sends-through-both-replicas")
+    world._nt = bool(world.probes.get("send-to-released-run") or world.probes.get("sender-polled-while-releasing"))
+
+
+def _run_dbos(tape):
+    from worlds.dbos import DbosWorld
+    from props.c36 import gen as gen36
+    return engine_common.simulate(tape, CFG_DBOS, check_dbos, gen=gen36, scenario=scenario_dbos, nontrivial=lambda w, s, o: w._nt, world_cls=DbosWorld)
+
+
 def run(tape):
+    if tape.draw(4, "c26.stack") == 0:
+        return _run_dbos(tape)
     return engine_common.simulate(tape, CFG, check, gen=gen, scenario=scenario, nontrivial=lambda w, s, o: w._nt, world_cls=ServerWorld)
